@@ -33,7 +33,11 @@ REQUIRED_BRANCHES = ["leaf", "leaf-all", "leaf-unadorned", "conj", "disjS", "dis
                      # a capture group) and accept an indexed term outside the byte range of the literal's stored (upper-case)
                      # spelling; control patterns that keep a case-sensitive literal prefix
                      "regexp:folded-literal-prefix", "regexp:folded-literal-prefix-matches-term-outside-its-byte-range",
-                     "regexp:case-sensitive-literal-prefix"]
+                     "regexp:case-sensitive-literal-prefix",
+                     # score-none conjunctions rewritten into ONE unadorned iterator whose constituents hold, in the same merged
+                     # segment, 1-hit postings lists for two DIFFERENT documents (result empty) / for the SAME document
+                     "trace:unadorned-conjunction-two-1hit-terms-different-docs",
+                     "trace:unadorned-conjunction-two-1hit-terms-same-doc"]
 ASSUMPTIONS = [
     "a DocumentMatch is its doc number: scores, locations and the match pool do not influence which documents are returned",
     "sort.Sort of the children by Count() only changes the order in which children are asked, never a doc number",
@@ -48,7 +52,7 @@ ASSUMPTIONS = [
 ]
 TRUSTED = [
     "hand-written model Bluge.Search / Bluge.C07.Postings / Bluge.C07.Query tied by the correspondence stream `search` (go/harness/c07): id lists of AllMatches, TopN and TopN+SetScore(none) against the transcribed searcher state machines (leaves = the per-segment postings iterator machines over the REAL snapshot layout) and against `denote`; and by the node-level replay: the real searcher tree of every query is rebuilt, every node wrapped in a logging search.Searcher (reflection on unexported fields of package searcher/index), and each node's recorded call sequence is replayed on the corresponding transcribed machine, answers compared call by call",
-    "go/extract/c07.go (Gen): 16 facts (literalPrefix returns a prefix only for a literal without FoldCase, DisjunctionHeapTakeover, DisjunctionMaxClauseCount, the slice/heap switch, the guards of the two unadorned rewrites and the minSearcher wrap, tooManyClauses, the phrase slop test, the FilteringSearcher.Advance fallback, the postings restart guard, the sort.Search predicate) with one `decide` obligation each",
+    "go/extract/c07.go (Gen): 17 facts (the 1-hit disagreement guard of optimizeConjunctionUnadorned.Finish, literalPrefix returns a prefix only for a literal without FoldCase, DisjunctionHeapTakeover, DisjunctionMaxClauseCount, the slice/heap switch, the guards of the two unadorned rewrites and the minSearcher wrap, tooManyClauses, the phrase slop test, the FilteringSearcher.Advance fallback, the postings restart guard, the sort.Search predicate) with one `decide` obligation each",
 ]
 LEVEL_TEXT = ("Lean 4 theorems about the transcribed searcher state machines: the multi-segment postingsIterator / postingsIteratorAll "
               "(Next over exhausted segments, Advance through sort.Search over the offsets, restart on a backward seek, the unadorned bitmap / 1-hit "
